@@ -50,6 +50,21 @@ def scenarios(rng, quick):
                                           "Iterator": {"StartAt": "X", "States": {"X": {"Type": "Pass", "End": True}}},
                                           "End": True}}}
     out.append(explore.Scenario("map-magic-items", m, {"items": [None, "__CAUGHT__", "__TERMINATED__", 0, False, ""]}))
+    # outputs that look like something else: an object with an `Error` member is a result like any other (success is told by
+    # how the branch ended, not by what it returned), `"__PENDING__"` is a string
+    out.append(explore.Scenario("map-errorlike-items", m, {"items": [{"Error": "none", "Code": 0}, {"Error": "E", "Cause": "c"}, "__PENDING__",
+                                                                    {"errorType": "x"}, {"Error": ""}]}))
+    for mc in (1, 2):
+        m2 = {"StartAt": "M", "States": {"M": {"Type": "Map", "ItemsPath": "$.items", "MaxConcurrency": mc,
+                                               "Iterator": {"StartAt": "X", "States": {"X": {"Type": "Pass", "End": True}}}, "Next": "After"},
+                                         "After": {"Type": "Pass", "End": True}}}
+        out.append(explore.Scenario("map-errorlike-items-mc%d" % mc, m2, {"items": ["a", {"Error": "none", "n": 1}, "__PENDING__", "c"]}))
+    mp = {"StartAt": "P", "States": {"P": {"Type": "Parallel", "Next": "After", "Branches": [
+        {"StartAt": "A", "States": {"A": {"Type": "Pass", "Result": "a", "End": True}}},
+        {"StartAt": "B", "States": {"B": {"Type": "Pass", "Result": {"Error": "none", "Code": 0}, "End": True}}},
+        {"StartAt": "C", "States": {"C": {"Type": "Pass", "Result": "__PENDING__", "End": True}}}]},
+        "After": {"Type": "Pass", "End": True}}}
+    out.append(explore.Scenario("par-errorlike-outputs", mp, {"x": 1}))
     # nesting
     inner_map = {"Type": "Map", "ItemsPath": "$.items", "MaxConcurrency": 1,
                  "Iterator": {"StartAt": "T2", "States": {"T2": task("g")}}, "End": True}
